@@ -693,7 +693,11 @@ func (p *connPool) sendRequest(ctx context.Context, req Request, state connPoolS
 		if err != nil {
 			return reject(err)
 		}
-		brokerID = r.(*findcoordinator.Response).NodeID
+		res := r.(*findcoordinator.Response)
+		if res.ErrorCode != 0 {
+			return reject(Error(res.ErrorCode))
+		}
+		brokerID = res.NodeID
 	case protocol.TransactionalMessage:
 		p := p.sendRequest(ctx, &findcoordinator.Request{
 			Key:     m.Transaction(),
@@ -703,7 +707,11 @@ func (p *connPool) sendRequest(ctx context.Context, req Request, state connPoolS
 		if err != nil {
 			return reject(err)
 		}
-		brokerID = r.(*findcoordinator.Response).NodeID
+		res := r.(*findcoordinator.Response)
+		if res.ErrorCode != 0 {
+			return reject(Error(res.ErrorCode))
+		}
+		brokerID = res.NodeID
 	}
 
 	var c *conn
